@@ -36,6 +36,7 @@ type specEnv struct {
 	witEnv   *specEnv // where call-site witnesses are evaluated (the caller), nil: this environment
 	fns      map[string]func(arg *Term) *Term
 	fnRes    map[string]types.Type
+	specPkg  string   // a spec function body is evaluated in the vocabulary of its declaring package
 	witSort  Sort     // result sort of the ghost function whose witness is being evaluated
 	qfacts   *[]*Term // memory-model facts about references read under the innermost goal-position forall
 }
@@ -379,6 +380,13 @@ func (se *specEnv) importedConst(pkgName, name string) *types.Const {
 // invariant supplied by the caller's contract for an inlined loop is written in the caller's vocabulary).
 func (se *specEnv) pkgs() []*types.Package {
 	var out []*types.Package
+	if se.specPkg != "" {
+		for _, pk := range se.f.ctx.eng.pkgs {
+			if pk.Types != nil && pkgID(pk.Types) == se.specPkg {
+				out = append(out, pk.Types)
+			}
+		}
+	}
 	if p := se.pkg(); p != nil {
 		out = append(out, p)
 	}
@@ -963,6 +971,7 @@ func (se *specEnv) call(e *SExpr) SVal {
 		n.vars[p] = args[i]
 	}
 	n.lenv = nil
+	n.specPkg = sf.Pkg
 	if n.witEnv == nil {
 		n.witEnv = se // witnesses are written in the vocabulary of the clause that uses the spec function
 	}
